@@ -77,19 +77,7 @@ theorem evalTV_continue (b as : List (Coef K)) (a0 zero1 zero2 : K) (mem1 mem2 x
   rw [takeP_nil, ← hmem2, List.take_length] at h3
   exact h3
 
-/-! ### Stream gain: the first call destroys the filter object -/
-
-theorem setItem_zero_head (c : Coef K) (rest : Terms (Coef K)) :
-    ALV.C07.setItem (((0 : Int), c) :: rest) 0 0 = rest := by
-  simp [ALV.C07.setItem, ALV.C07.has, ALV.C07.find?, ALV.C07.del]
-
-theorem denAfterCall_gain (num rest : Terms (Coef K)) (gs : List K)
-    (hc : ∀ kv ∈ num ++ (((0 : Int), Coef.strm gs) :: rest), 0 ≤ kv.1) :
-    denAfterCall num (((0 : Int), Coef.strm gs) :: rest) = rest := by
-  have hcausal := checkCausal_of_nonneg _ _ hc
-  have hg0 : coefAt (((0 : Int), Coef.strm gs) :: rest) 0 = Coef.strm gs := by simp [coefAt]
-  simp only [denAfterCall, hcausal, Bool.not_true, Bool.false_eq_true, if_false, hg0]
-  exact setItem_zero_head _ rest
+/-! ### a filter object without gain -/
 
 /-- a causal filter object whose denominator has no delay-0 term: `ZeroDivisionError("Invalid
 filter gain")` -/
@@ -104,27 +92,6 @@ theorem callTV_no_gain (num rest : Terms (Coef K)) (mem : Mem K) (zero : K) (xs 
   have hcausal := checkCausal_of_nonneg _ _ hc
   have h0 : coefAt rest 0 = Coef.const 0 := coefAt_of_lt rest 0 hpos
   simp [callTV, callConst, hcausal, h0]
-
-/-- **second call after a Stream-gain call** (the model of the code as it is): whatever the first
-call returned, the filter object has lost `denpoly[0]`, and the second call raises
-`ZeroDivisionError` before it reads anything -/
-theorem callTwice_gain (num rest : Terms (Coef K)) (gs : List K) (mem1 mem2 : Mem K)
-    (zero1 zero2 : K) (xs1 xs2 : List K)
-    (hden : List.Pairwise (fun x y : Int × Coef K => x.1 < y.1) (((0 : Int), Coef.strm gs) :: rest))
-    (hcn : ∀ kv ∈ num, 0 ≤ kv.1) :
-    (callTwice num (((0 : Int), Coef.strm gs) :: rest) mem1 zero1 xs1 mem2 zero2 xs2).2
-      = .error .zeroDivision := by
-  have hpos : ∀ kv ∈ rest, (0 : Int) < kv.1 := (List.pairwise_cons.1 hden).1
-  have hc : ∀ kv ∈ num ++ (((0 : Int), Coef.strm gs) :: rest), 0 ≤ kv.1 := by
-    intro kv hkv
-    rcases List.mem_append.1 hkv with h | h
-    · exact hcn kv h
-    · rcases List.mem_cons.1 h with rfl | h
-      · simp
-      · exact Int.le_of_lt (hpos kv h)
-  have hg0 : coefAt (((0 : Int), Coef.strm gs) :: rest) 0 = Coef.strm gs := by simp [coefAt]
-  simp only [callTwice, hg0, denAfterCall_gain num rest gs hc]
-  exact callTV_no_gain num rest mem2 zero2 xs2 hcn hpos
 
 /-! ### constant gain: the filter OBJECT after the first call, called again -/
 
@@ -265,7 +232,7 @@ theorem callTwice_const (num den : Terms (Coef K)) (mem1 mem2 : Mem K) (zero1 ze
   rw [hlen, List.take_length, hr] at ht
   simp only [Except.ok.injEq, Prod.mk.injEq, loopCoeffs, h0] at ht
   obtain ⟨_, hits⟩ := ht
-  simp only [callTwice, h0, hr]
+  simp only [callTwice, objAfter, h0, hr]
   rw [hits]
   simp only
   have hc2 : ∀ kv ∈ advance 0 num ((dense num).map (fun c => c.items.drop xs1.length))
@@ -291,6 +258,93 @@ theorem callTwice_const (num den : Terms (Coef K)) (mem1 mem2 : Mem K) (zero1 ze
   congr 1
   have := tvspec_dropC (dense num) (dense den).tail (Coef.const g) zero2 xs1.length xs2 0
     (memoryOf zero2 (dense den).tail.length mem2) []
+  rw [Nat.zero_add] at this
+  exact this
+
+/-! ### Stream gain: the object is left untouched, its Streams `L` items further -/
+
+theorem coefAt_map_dropC (t : Terms (Coef K)) (k : Nat) (j : Int) :
+    coefAt (t.map fun kv => (kv.1, kv.2.dropC k)) j = (coefAt t j).dropC k := by
+  have hp : ((fun kv : Int × Coef K => kv.1 == j) ∘ fun kv : Int × Coef K => (kv.1, kv.2.dropC k))
+      = (fun kv => kv.1 == j) := by funext kv; rfl
+  simp only [coefAt, List.find?_map, hp]
+  cases h : t.find? (fun kv => kv.1 == j) with
+  | none => rfl
+  | some kv => rfl
+
+theorem dense_map_dropC (t : Terms (Coef K)) (k : Nat) :
+    dense (t.map fun kv => (kv.1, kv.2.dropC k)) = (dense t).map (Coef.dropC k) := by
+  by_cases ht : t.isEmpty = true
+  · have : t = [] := by simpa using ht
+    subst this; rfl
+  · have ht' : t.isEmpty = false := by simpa using ht
+    have ht2 : (t.map fun kv : Int × Coef K => (kv.1, kv.2.dropC k)).isEmpty = false := by
+      cases t with
+      | nil => simp at ht'
+      | cons a r => rfl
+    simp only [dense, ht', ht2, Bool.false_eq_true, if_false, List.map_map,
+      order_map_snd t (fun kv => kv.2.dropC k)]
+    apply List.map_congr_left
+    intro i _
+    simp only [Function.comp]
+    exact coefAt_map_dropC t k _
+
+/-- **second call, Stream gain, on the filter object** (the code after the repair of D16): a
+normalised causal filter object with a Stream gain, called, its output (ended by the input)
+consumed, called again: the variable-gain rewriting is done again on the object's own polynomials,
+whose Streams are `|xs1|` items further, and the second call computes the difference equation with
+gain `a0[|xs1|+n]` and the coefficient index going on at `|xs1|`. -/
+theorem callTwice_gain_continue (num rest : Terms (Coef K)) (gs : List K) (mem1 mem2 : Mem K)
+    (zero1 zero2 : K) (xs1 xs2 : List K)
+    (hnum : List.Pairwise (fun x y : Int × Coef K => x.1 < y.1) num)
+    (hden : List.Pairwise (fun x y : Int × Coef K => x.1 < y.1) (((0 : Int), Coef.strm gs) :: rest))
+    (hstored : ∀ kv ∈ num ++ rest, kv.2 ≠ Coef.const 0) (hcn : ∀ kv ∈ num, 0 ≤ kv.1)
+    (hnz : ¬ ((∀ c ∈ dense num, c = Coef.const 0)
+      ∧ (∀ c ∈ (dense (((0 : Int), Coef.strm gs) :: rest)).tail, c = Coef.const 0)))
+    (hfull : ∃ ys its, callTV num (((0 : Int), Coef.strm gs) :: rest) mem1 zero1 xs1 = .ok (ys, its)
+      ∧ ys.length = xs1.length) :
+    (callTwice num (((0 : Int), Coef.strm gs) :: rest) mem1 zero1 xs1 mem2 zero2 xs2).2.map Prod.fst
+      = .ok (tvspec (dense num) (dense (((0 : Int), Coef.strm gs) :: rest)).tail (Coef.strm gs) zero2
+              xs1.length
+              (memoryOf zero2 (dense (((0 : Int), Coef.strm gs) :: rest)).tail.length mem2) [] xs2) := by
+  obtain ⟨ys, its, hr, hlen⟩ := hfull
+  have hg0 : coefAt (((0 : Int), Coef.strm gs) :: rest) 0 = Coef.strm gs := by simp [coefAt]
+  simp only [callTwice, objAfter, hr, hg0, hlen]
+  have hmap : ((((0 : Int), Coef.strm gs) :: rest).map fun kv => (kv.1, kv.2.dropC xs1.length))
+      = ((0 : Int), Coef.strm (gs.drop xs1.length))
+          :: rest.map (fun kv => (kv.1, kv.2.dropC xs1.length)) := rfl
+  have hdn := dense_map_dropC num xs1.length
+  have hdd := dense_map_dropC (((0 : Int), Coef.strm gs) :: rest) xs1.length
+  rw [hmap] at hdd ⊢
+  have hnum' : List.Pairwise (fun x y : Int × Coef K => x.1 < y.1)
+      (num.map fun kv => (kv.1, kv.2.dropC xs1.length)) := by
+    rw [List.pairwise_map]; exact hnum
+  have hden' : List.Pairwise (fun x y : Int × Coef K => x.1 < y.1)
+      (((0 : Int), Coef.strm (gs.drop xs1.length))
+        :: rest.map (fun kv => (kv.1, kv.2.dropC xs1.length))) := by
+    rw [← hmap, List.pairwise_map]; exact hden
+  have hstored' : ∀ kv ∈ (num.map fun kv => (kv.1, kv.2.dropC xs1.length))
+      ++ rest.map (fun kv => (kv.1, kv.2.dropC xs1.length)), kv.2 ≠ Coef.const 0 := by
+    intro kv hkv
+    rw [← List.map_append] at hkv
+    obtain ⟨kv', hm, rfl⟩ := List.mem_map.1 hkv
+    intro h
+    exact hstored kv' hm ((dropC_eq_zero _ _).1 h)
+  have hcn' : ∀ kv ∈ (num.map fun kv => (kv.1, kv.2.dropC xs1.length)), 0 ≤ kv.1 := by
+    intro kv hkv
+    obtain ⟨kv', hm, rfl⟩ := List.mem_map.1 hkv
+    exact hcn kv' hm
+  have hnz' : ¬ ((∀ c ∈ dense (num.map fun kv => (kv.1, kv.2.dropC xs1.length)), c = Coef.const 0)
+      ∧ (∀ c ∈ (dense (((0 : Int), Coef.strm (gs.drop xs1.length))
+          :: rest.map (fun kv => (kv.1, kv.2.dropC xs1.length)))).tail, c = Coef.const 0)) := by
+    rw [hdn, hdd, ← List.map_tail, map_dropC_zero, map_dropC_zero]
+    exact hnz
+  rw [callTV_gain_eq _ _ _ mem2 zero2 xs2 hnum' hden' hstored' hcn' hnz', hdn, hdd, ← List.map_tail,
+    List.length_map]
+  congr 1
+  have := tvspec_dropC (dense num) (dense (((0 : Int), Coef.strm gs) :: rest)).tail (Coef.strm gs)
+    zero2 xs1.length xs2 0
+    (memoryOf zero2 (dense (((0 : Int), Coef.strm gs) :: rest)).tail.length mem2) []
   rw [Nat.zero_add] at this
   exact this
 
